@@ -232,6 +232,8 @@ def run(chk, tier):
     from ..rules import sibs as _SB
     _SB.check(chk, db, ['_vector/', '_inplace_vector/', '_stack/'])      # SIB: cv/ref-qualified overloads of one member agree
     _SB.positive_control(chk)
+    from ..rules import initform as _IF
+    _IF.check(chk, db, ['_vector/', '_inplace_vector/', '_stack/'])      # INITFORM: forwarded packs direct-non-list-initialise
     cap_rule(chk, db)
     try_rule(chk, db)
     own_rule(chk, db)
